@@ -454,6 +454,7 @@ type scenario struct {
 	Custom func(h *hctx, add func(shape, detail string)) string
 	Cfg    vrt.Config
 	OneCap bool // the result-channel capacity is not a parameter of this scenario
+	Pools  bool // sync.Pool modelled (vsync.ModelPools): LIFO hand-out, scheduling points at Get / Put / after Put
 	BoundQ int  // bounded mode: largest bound attempted on the quick / thorough tier
 	BoundT int
 }
@@ -464,6 +465,16 @@ var scenarios = []scenario{
 			_, g := freshGraph(0)
 			h.spawnUpdate(0, g, "add", 0b0011)
 			h.spawnLookup("lookup", g, lkTFS, "", storage.DefaultLookup, c, false, nil)
+			h.spawnExist(2, g, 0)
+		}},
+	// the scratch buffers the identity functions take from sync.Pools: with the pools modelled, a thread that still
+	// uses a buffer it has put back meets the other thread's bytes in it
+	{Name: "S8", Class: "S8:Add|Exist-of-another-triple;Exist (pools modelled)", Mode: explore.SleepSets, Hedge: true, OneCap: true, Pools: true,
+		Body: func(h *hctx, c int) {
+			_, g := freshGraph(0)
+			h.spawnUpdate(0, g, "add", 0b0001)
+			h.spawnExist(1, g, 1)
+			h.wg.Wait()
 			h.spawnExist(2, g, 0)
 		}},
 	{Name: "S2", Class: "S2:RemoveBatch|Objects|Add", Mode: explore.SleepSets, Hedge: true, Initial: 0b0011,
@@ -669,6 +680,9 @@ type pendingNames struct {
 // mk builds the factory of fresh executions of a scenario variant.
 func (sc *scenario) mk(capacity int, native bool) func() explore.Exec {
 	return func() explore.Exec {
+		if vsync.ModelPools != sc.Pools {
+			vsync.ModelPools = sc.Pools // between executions, never during one
+		}
 		h := &hctx{native: native}
 		return explore.Exec{
 			Body: func() {
